@@ -141,4 +141,28 @@ example : (turns ⟨2, true⟩ ⟨0, [], false⟩ [[[97, 98], [99, 100], [101, 1
 example : specLines [97, 98, 99, 100, 101, 102, 103, 10, 120, 10] 0 []
     = [(8, [97, 98, 99, 100, 101, 102, 103, 10]), (10, [120, 10])] := by decide
 
+/-- **cut mode, after admission**: once `Pipeline.checkInputBytes` has cut the data at `max`
+    (`cutAtLimit`, the model of its cut branch — tied to the code by C20, not here), event `i` is
+    exactly what cutting the true line gives: the line when it fits, its first `max` bytes plus the
+    newline otherwise. What the worker dropped from the middle of an over-long line is never seen. -/
+theorem worker_cut_then_admission (max : Nat) (hmax : 0 < max) (base : Nat) (ts : List (List Bytes))
+    (i : Nat) (h1 : i < (turns ⟨max, true⟩ ⟨base, [], false⟩ ts).2.length)
+    (h2 : i < (specLines ts.flatten.flatten base []).length) :
+    cutAtLimit max ((turns ⟨max, true⟩ ⟨base, [], false⟩ ts).2[i]).2
+      = cutAtLimit max ((specLines ts.flatten.flatten base [])[i]).2 ∧
+    (max < ((specLines ts.flatten.flatten base [])[i]).2.length →
+      cutAtLimit max ((turns ⟨max, true⟩ ⟨base, [], false⟩ ts).2[i]).2
+        = ((specLines ts.flatten.flatten base [])[i]).2.take max ++ [NL]) := by
+  have := (turns_post ⟨max, true⟩ ⟨base, [], false⟩ ts [] (Carry.refl _ [])).out
+  have hm : ¬ max = 0 := by omega
+  simp only [Match, hm, ↓reduceIte, dropFirst, Bool.false_eq_true] at this
+  have hk := (allCut_iff.mp this).2 i h1 h2
+  have hnl := specLines_getLast (List.getElem_mem h2)
+  have he := cutAtLimit_of_cutOk hk hnl
+  refine ⟨he, fun hlen => ?_⟩
+  rw [he]; simp [cutAtLimit, hlen, hnl]
+
+example : cutAtLimit 2 [97, 98, 101, 102, 103, 10] = [97, 98, 10] ∧
+    cutAtLimit 2 [97, 98, 99, 100, 101, 102, 103, 10] = [97, 98, 10] := by decide
+
 end FileD.PropsC06
